@@ -441,3 +441,29 @@ Section WithPreparer.
     rewrite <- run_refines. apply step_refines.
   Qed.
 End WithPreparer.
+
+(* ---- finding: a re-prepare that overlaps an offer loses the offer --------------
+   x is cached at version "1"; its background re-preparer reads the entry and
+   awaits the preparer; meanwhile x is offered at version "2" and that offer
+   completes (it returns the new result and the cache holds version "2"); then the
+   re-preparer finishes and stores the entry it had read: the cache says version
+   "1" again, although "2" is the most recently offered version. *)
+Theorem reprepare_overwrites_newer_offer :
+  exists (prep : key -> json -> nat -> presult) (cls : nat) (name : string) (spec1 spec2 : json),
+    let k := (cls, name) in
+    let m v := Meta (Some name) (Some v) true in
+    let s1 := fst (step prep (Offer cls (m "1") spec1 None) init) in
+    exists read p started s2,
+      rp_begin prep k s1 = Some (read, p, started, s2) /\
+      let s3 := fst (step prep (Offer cls (m "2") spec2 None) s2) in
+      (exists v, snd (step prep (Offer cls (m "2") spec2 None) s2) = RValue v /\
+                 option_map e_version (lookup k (cache s3)) = Some "2") /\
+      let s4 := rp_end k read p started s3 in
+      option_map e_version (lookup k (cache s4)) = Some "1" /\
+      option_map e_spec (lookup k (cache s4)) = Some spec1.
+Proof.
+  exists (fun _ _ n => POk n false), 0, "x", (JStr "spec-v1"), (JStr "spec-v2").
+  cbv zeta. eexists _, _, _, _. split; [vm_compute; reflexivity|].
+  split; [exists (VOk 2); vm_compute; auto|]. vm_compute. auto.
+Qed.
+
